@@ -117,7 +117,7 @@ def gen_primitives(rng, tier):
     dens = [2, 3, 4, 7, 10, 9, (1 << 64) - 1, 1 << 64, (1 << 64) + 1, 10 ** 30 + 1]
     for d in dens:
         h = d // 2
-        nums = sorted({0, 1, h - 1, h, h + 1, d - 1} & set(range(0, d)))
+        nums = sorted(x for x in {0, 1, h - 1, h, h + 1, d - 1} if 0 <= x < d)
         for n in (-2, -1, 0, 1, 2):
             for num in nums:
                 for sn in ((1, -1) if num else (1,)):
